@@ -1,2 +1,3 @@
-/-! Stub driver: the model driver for this property is not built yet. -/
-def main : IO Unit := IO.println "unimplemented"
+import JoblibModel.ParallelDriver
+/-! Driver for C09: scenarios of harness/ctl.py → event log of the M1 model (see JoblibModel/ParallelDriver.lean). -/
+def main : IO Unit := JoblibModel.IOUtil.lineLoop JoblibModel.ParallelDriver.handle
